@@ -98,6 +98,33 @@ def hidden_state_sites(model: SrcModel, fn: FuncDef) -> List[Tuple[str, ast.AST,
         res = model.resolve_name(mod, name)
         return isinstance(res, tuple) and res[0] == "modvar" and not isinstance(model.module_constant(res[1], res[2]), ast.Constant)
 
+    own_locals = set(fn.params)
+    for n_ in walk_shallow(fn.node):
+        if isinstance(n_, ast.Name) and isinstance(n_.ctx, ast.Store):
+            own_locals.add(n_.id)
+    enclosing: Set[str] = set()
+    cur_ = fn.parent
+    while cur_ is not None:
+        enclosing |= set(cur_.params)
+        for n_ in walk_shallow(cur_.node):
+            if isinstance(n_, ast.Name) and isinstance(n_.ctx, ast.Store):
+                enclosing.add(n_.id)
+        cur_ = cur_.parent
+    enclosing -= own_locals
+    for n_ in walk_shallow(fn.node):
+        if isinstance(n_, ast.Nonlocal):
+            for nm in n_.names:
+                out.append(("closure-store", n_, f"rebinds the enclosing function's variable '{nm}' (state kept between calls of the inner function)"))
+        tg: List[ast.AST] = []
+        if isinstance(n_, ast.Assign):
+            tg = list(n_.targets)
+        elif isinstance(n_, (ast.AugAssign, ast.AnnAssign)) and getattr(n_, "value", None) is not None:
+            tg = [n_.target]
+        for t_ in tg:
+            if isinstance(t_, (ast.Attribute, ast.Subscript)) and _root_name(t_) in enclosing:
+                out.append(("closure-store", n_, f"stores into '{_root_name(t_)}', a variable of the enclosing function that outlives the call: {norm(t_, 70)}"))
+        if isinstance(n_, ast.Call) and isinstance(n_.func, ast.Attribute) and n_.func.attr in MUTATORS and _root_name(n_.func.value) in enclosing:
+            out.append(("closure-store", n_, f"mutates '{_root_name(n_.func.value)}', a variable of the enclosing function that outlives the call: {norm(n_, 70)}"))
     for d in fn.node.decorator_list:
         name = dotted(d.func if isinstance(d, ast.Call) else d) or norm(d)
         if name.split(".")[-1] in MEMO_DECORATORS and fn.qualname not in ALLOWED_MEMO:
